@@ -605,48 +605,81 @@ def tmp_unassigned_case(kind, sp):
 CPU_BUDGET = 10          # CPU seconds per case inside the harness (ITIMER_PROF); a case that exceeds it is re-run alone with 6x
 
 
-def run_impl(himpl, lines, notes):
-    """run the implementation harness; a case that crashes or exceeds its CPU budget yields a marker line for THAT case
-    (after one re-run alone with a larger budget) and the run continues behind it.  -> (list of result lines or None, problem)"""
-    out, i, restarts, hangs = [], 0, 0, 0
-    while i < len(lines):
-        if hangs >= 5:          # enough evidence: the remaining cases are not run (and not counted as compared)
-            notes.append("%d cases were not run after 5 cases that did not return" % (len(lines) - i))
-            out += ["NOT-RUN"] * (len(lines) - i)
+CONFIRM_BUDGET = 30       # CPU seconds of the confirmation re-run (the case alone)
+MAX_CONFIRMATIONS, MAX_OVERRUNS, MAX_CRASHES_PER_FORM = 3, 6, 4
+HANG_CAPS = {"confirmations": 0, "overruns": 0, "banned": set(), "crashes": {}, "stopped": False}    # shared by every harness of one run
+
+
+def form_of(line):
+    """the call form a case drives: the operation name, with the ring for the ring / polynomial operations"""
+    t = line.split()
+    return t[0] + (":" + t[1] if t and t[0].split(".")[0] in ("ring", "poly") and len(t) > 1 else "")
+
+
+def run_impl(himpl, lines, notes, caps=HANG_CAPS):
+    """run the implementation harness.  A case that crashes or exceeds its CPU budget (ITIMER_PROF, %d s) yields a marker line for
+    THAT case and the run continues behind it.  Bounded cost: an overrun is confirmed by re-running the case alone with %d CPU s;
+    after the first confirmed `does not return` of a call form (or 4 crashes of it) the form is not driven any more in this run, in
+    any harness; after 3 confirmations or 6 overruns the streams stop.  Cases not run are `NOT-RUN` (never counted as compared).
+    -> (list of result lines or None, problem)""" % (CPU_BUDGET, CONFIRM_BUDGET)
+    out = [None] * len(lines)
+    pending = list(range(len(lines)))
+    restarts = 0
+    while pending:
+        if caps["stopped"]:
+            for j in pending:
+                out[j] = "NOT-RUN"
             break
-        rc, o, err = vf.run_lines(himpl, "".join(l + "\n" for l in lines[i:]), timeout=1500, args=(str(CPU_BUDGET),))
+        run_now = [j for j in pending if form_of(lines[j]) not in caps["banned"]]
+        for j in pending:
+            if form_of(lines[j]) in caps["banned"]:
+                out[j] = "NOT-RUN"
+        if not run_now:
+            break
+        rc, o, err = vf.run_lines(himpl, "".join(lines[j] + "\n" for j in run_now), timeout=1500, args=(str(CPU_BUDGET),))
         if rc == 124:
             return None, "time-out"
-        if rc == 0 and len(o) == len(lines) - i:
-            out += o
+        if rc == 0 and len(o) == len(run_now):
+            for j, l in zip(run_now, o):
+                out[j] = l
             break
         marker = o[-1] if o and o[-1].split()[:1] in (["CPU-TIMEOUT"], ["CRASHED"]) else None
         done = o[:-1] if marker else o
-        if len(done) >= len(lines) - i:
+        if len(done) >= len(run_now):
             return None, "harness failed (rc=%s): %s" % (rc, err[-500:])
-        k = i + len(done)                       # the case that was running
-        out += done
+        for j, l in zip(run_now, done):
+            out[j] = l
+        k = run_now[len(done)]                  # the case that was running
+        frm = form_of(lines[k])
         if marker is None:
             marker = "CRASHED rc=%s" % rc       # killed without a marker (e.g. SIGKILL)
-        if marker.startswith("CPU-TIMEOUT") and hangs >= 1:
-            marker = "DOES-NOT-RETURN after %d CPU seconds (only the first such case is re-run with %d)" % (CPU_BUDGET, 6 * CPU_BUDGET)
-            hangs += 1
-        elif marker.startswith("CPU-TIMEOUT"):
-            hangs += 1
-            rc2, o2, _ = vf.run_lines(himpl, lines[k] + "\n", timeout=1500, args=(str(6 * CPU_BUDGET),))
+        if marker.startswith("CPU-TIMEOUT"):
+            caps["overruns"] += 1
+            rc2, o2, _ = vf.run_lines(himpl, lines[k] + "\n", timeout=600, args=(str(CONFIRM_BUDGET),))
             if rc2 == 0 and len(o2) == 1:
                 notes.append("slow case (more than %d CPU seconds): %s" % (CPU_BUDGET, lines[k][:200]))
                 marker = o2[0]
             elif rc2 == 124:
                 return None, "time-out"
             else:
-                marker = "DOES-NOT-RETURN after %d CPU seconds" % (6 * CPU_BUDGET)
-        out.append(marker)
-        i = k + 1
+                marker = "DOES-NOT-RETURN after %d CPU seconds (the case alone)" % CONFIRM_BUDGET
+                caps["confirmations"] += 1
+                caps["banned"].add(frm)
+                notes.append("call form `%s` does not return: not driven any more in this run" % frm)
+            if caps["confirmations"] >= MAX_CONFIRMATIONS or caps["overruns"] >= MAX_OVERRUNS:
+                caps["stopped"] = True
+                notes.append("streams stopped after %d confirmed `does not return` / %d CPU-budget overruns" % (caps["confirmations"], caps["overruns"]))
+        else:
+            caps["crashes"][frm] = caps["crashes"].get(frm, 0) + 1
+            if caps["crashes"][frm] >= MAX_CRASHES_PER_FORM:
+                caps["banned"].add(frm)
+                notes.append("call form `%s` crashed %d times: not driven any more in this run" % (frm, caps["crashes"][frm]))
+        out[k] = marker
+        pending = run_now[len(done) + 1:]
         restarts += 1
-        if restarts > 200:
-            return None, "harness crashed on more than 200 cases"
-    return out, None
+        if restarts > 300:
+            return None, "harness restarted more than 300 times"
+    return [l if l is not None else "NOT-RUN" for l in out], None
 
 
 # ------------------------------------------------------------------ preprocessor-selected I/O code
@@ -821,7 +854,7 @@ def judge_alt(chk, c, got, mline):
     def fail(klass, expected, detail=""):
         chk.fail_input(site, klass, case, expected, raw[:600], detail)
     if got[:1] in (["CRASHED"], ["DOES-NOT-RETURN"], ["CPU-TIMEOUT"]):
-        fail("crash / does not return", "a result line", raw)
+        fail("crash" if got[0] == "CRASHED" else "does-not-return", "a result line", raw)
         return
     if kind == "alt.int.write":
         exp = [hx(str(abs(sp["z"]) if sp["variant"] == "abs" else sp["z"]))]
@@ -868,6 +901,7 @@ def judge_alt(chk, c, got, mline):
 
 def main(tier, replay=None):
     chk = vf.Check("C19", tier, "proof")
+    HANG_CAPS.update({"confirmations": 0, "overruns": 0, "banned": set(), "crashes": {}, "stopped": False})
     rng = vf.Rng(chk.seed)
     chk.cov["trusted_base"] = [
         "Coq 8.16.1 kernel + vm_compute (no native_compute)",
@@ -1668,6 +1702,8 @@ def main(tier, replay=None):
     if missed:
         chk.cov["floor_missed"] = missed
         chk.notes.append("FLOOR MISSED (fewer comparisons than a complete run makes: tooling time-out, or cases not run after calls that did not return): " + "; ".join(missed))
+    chk.cov["hang_handling"] = {"cpu_budget_s": CPU_BUDGET, "confirm_budget_s": CONFIRM_BUDGET, "confirmations": HANG_CAPS["confirmations"], "overruns": HANG_CAPS["overruns"],
+                                "forms_not_driven_any_more": sorted(HANG_CAPS["banned"]), "streams_stopped": HANG_CAPS["stopped"], "cases_not_run": sum(1 for l in iout if l == "NOT-RUN")}
     chk.cov["traces_validated_against_impl"] = ncorr
     chk.cov["distribution_by_kind"] = dist
     chk.cov["rings"] = sorted(RINGS)
@@ -1794,7 +1830,7 @@ def judge(chk, c, got, mline, gfq_texts):
     DEGLESS = ("Poly1Dom::read", "no degree to read (end of input / negative degree)")
     if got[:1] in (["CRASHED"], ["DOES-NOT-RETURN"], ["CPU-TIMEOUT"]) or (got == ["EXCEPTION"] and kind in ("poly.seqd", "ext.seqd")):
         # the harness case crashed or did not return (per-case CPU watchdog; re-run alone with a 6x budget before it is reported)
-        what = "crash (%s)" % raw if got[0] == "CRASHED" else "exception (a garbage size)" if got[0] == "EXCEPTION" else "does not return"
+        what = "crash (%s)" % raw if got[0] == "CRASHED" else "exception (a garbage size)" if got[0] == "EXCEPTION" else "does-not-return"
         if tmp_unassigned_case(kind, sp):
             fail(TMP_UNASSIGNED[0], TMP_UNASSIGNED[1], "failbit, the element = init(0)", what)
         elif kind in ("poly.seqd", "ext.seqd") and not sp["fixed"] and seq_expect(sp)[2]:
